@@ -7,8 +7,8 @@ pub use crate::fixed::verif_hooks::{is_ligature_making_kar, LayoutProbe};
 use crate::suggestion::Rank;
 use crate::utility::{smart_quoter, SplittedString, Utility};
 
-/// `keycodes::keycode_to_char` (panics on an unknown key, like the original).
-pub fn keycode_to_char(key: u16) -> char {
+/// `keycodes::keycode_to_char`
+pub fn keycode_to_char(key: u16) -> Option<char> {
     crate::keycodes::keycode_to_char(key)
 }
 
